@@ -477,6 +477,46 @@ PROFILES = {
 }
 
 
+def hook_commands_preserved(src, story, report):
+    """Source-level oracle (independent of the engine): every @hook/@unhook line of a passage must be a hook token
+    the engine will run - in the passage's execute list (top level), in its content at any depth (@if/@for) or in
+    the block content of the '-> @join' choice it is written under.  A command lost by the compiler never runs."""
+    def count(ts):
+        n = []
+        for t in ts or []:
+            if not isinstance(t, dict):
+                continue
+            if t.get("type") == "hook":
+                n.append((t.get("action"), t.get("event"), t.get("target")))
+            for key in ("content", "truthy", "falsy"):
+                if isinstance(t.get(key), list):
+                    n += count(t[key])
+            for br in t.get("branches", []) or []:
+                n += count(br.get("content", []))
+        return n
+    cur, want = None, {}
+    for line in src.split("\n"):
+        st = line.strip()
+        if st.startswith("::"):
+            cur = st[2:].strip().split("(")[0].strip()
+            want[cur] = []
+        elif cur and (st.startswith("@hook ") or st.startswith("@unhook ")):
+            parts = st.split()
+            if len(parts) == 3:
+                want[cur].append(("add" if parts[0] == "@hook" else "remove", parts[1], parts[2]))
+    for name, exp in want.items():
+        p = story["passages"].get(name)
+        if p is None:
+            continue
+        got = count(p.get("execute")) + count(p.get("content"))
+        for c in p.get("choices", []):
+            got += count(c.get("block_content"))
+        if sorted(got) != sorted(exp):
+            lost = [x for x in exp if x not in got] or exp
+            report("hook-command-lost-by-compiler", f"passage {name}: the source has hook commands {exp}, the compiled "
+                   f"passage runs {got} (missing {lost})", 0)
+
+
 def gen_ops_for(pid, rng, n):
     ops = []
     for _ in range(n):
@@ -577,7 +617,7 @@ def run_engine_property(pid: str, tier: str, seed: int, design_note: str) -> int
     props = C.coq_gate(chk)
     C.use_repo()
     rng = chk.rng
-    n_cases, max_ops = (140, 12) if tier == "quick" else (1500, 30)
+    n_cases, max_ops = (220, 12) if tier == "quick" else (1800, 30)
     prof_kw = PROFILES[pid]
     oracles = ORACLES[pid]
     terms, metas = [], []
@@ -614,6 +654,10 @@ def run_engine_property(pid: str, tier: str, seed: int, design_note: str) -> int
         if pid == "C04" and tier == "thorough" and i % 25 == 0:
             nops = 70          # cross the 50-deep undo bound
         ops = gen_ops_for(pid, r, nops)
+        if g.joins and r.random() < 0.45:
+            # a directed history: straight into a @join passage, then mostly join choices
+            ops = [("choose_text", "Enter " + r.choice(g.joins), r.randint(0, 5))] + \
+                  [("choose_text", "Join", r.randint(0, 5)) if r.random() < 0.6 else o for o in ops]
         if pid == "C04" and nops >= 60:
             ops = [("choose_valid", r.randint(0, 5)) for _ in range(56)] + [("undo",)] * 53 + [("redo",)] * 3
             long_histories += 1
@@ -629,6 +673,8 @@ def run_engine_property(pid: str, tier: str, seed: int, design_note: str) -> int
                                    "obs": [x["obs"] for x in _recs[1:step + 1]]})
         for o in oracles:
             o(story, recs, report)
+        if pid in ("C09", "C10"):
+            hook_commands_preserved(src, story, report)
         if pid == "C04" and nops >= 60 and all(x["view"] for x in recs):
             undos = [x for x in recs if x["op"][0] == "undo"]
             ok_undos = sum(1 for x in undos if x["obs"] == ("bool", True))
